@@ -1,16 +1,17 @@
 (* C12 — aws-chunked decoding is independent of stream fragmentation.
    Only statements; proofs are in Proofs/ChunkAccept.v and Proofs/ChunkFrag.v.
 
-   Full statements (kept visible; NOT yet proved — they are evaluated on every run by running the extracted
+   Full statements (kept visible; both are evaluated on every run by running the extracted
    models and the real readers on valid streams under every single cut, random multi-cuts, one-byte fragments and
    scripted destination-buffer sizes, and on every truncation and byte mutation of small streams):
      C12_signed_frag_indep : forall payload chunking sched, delivers sched (encode_signed chunking) ->
         run (init seed) sched [] = (payload, E_EOF)
      C12_unsigned_frag_indep : forall chunking bufs dflt (all sizes >= 1),
         urun (uinit (encode_unsigned chunking)) bufs dflt [] = (concat chunking, U_EOF)
-   Of C12_signed_frag_indep the one-delivery instance is proved below for every payload and chunking
-   (C12_signed_decodes_whole_stream); the step from one delivery to every fragmentation rests on the lemmas of Proofs/ChunkFrag.v
-   (the header parser is prefix-monotone, an incomplete header resumes from the stash, left-over data resumes from `left`).
+   C12_signed_frag_indep IS proved below (C12_signed_fragmentation_independent, with its one-delivery instance
+   C12_signed_decodes_whole_stream): Proofs/ChunkFrag.v shows that the header parser is prefix-monotone, that an incomplete header resumes
+   from the stash and left-over data from `left` exactly where a one-piece read would be (read_split, for ALL streams, valid or not), and
+   that on a valid stream no pending header outgrows the stash. The unsigned reader's statement is still evaluated, not proved.
    Proved below, for every state, fragment sequence and buffer-size sequence (no bound on sizes or steps):
    the rejection half in its structural form — the ONLY way either reader reports a clean end of stream is through
    the final zero-length chunk with every integrity value verified; a source that just ends is io.ErrUnexpectedEOF. *)
@@ -47,6 +48,24 @@ Section C12.
         [(enc sha256 hmac256 hex key stsPayload stsTrailer trailer true seed [] cs a0, eof)] [] = (total, E_EOF).
   Proof. exact (decode_whole sha256 hmac256 hex key stsPayload stsTrailer trailer). Qed.
 
+  (* ... and in EVERY fragmentation: however the encoded bytes are split across the reads of the source (any number of fragments of
+     any sizes, empty ones included; the source reports EOF after the last one), the reader returns exactly the payload and a clean end
+     of stream. Further premises: size spellings, hex digests and the base64 checksum are at most 64 bytes long, so that no chunk header
+     outgrows the reader's 1024-byte stash (a header longer than that IS rejected when it straddles two reads: the limit is part of the
+     reader). This is C12_signed_frag_indep of the header comment. *)
+  Theorem C12_signed_fragmentation_independent :
+    (forall x, ~ In 13%N (hex x)) -> (forall x, hex x <> []) -> (forall x, (List.length (hex x) <= 64)%nat) ->
+    forall a0 total, wf_final a0 -> (List.length a0 <= 64)%nat ->
+    (forall t, trailer = Some t -> ~ In 13%N (trailer_sum t total) /\ valid_checksum t (trailer_sum t total) = true) ->
+    (forall t, trailer = Some t -> (List.length (trailer_sum t total) <= 64)%nat) ->
+    forall seed cs frags, Forall wf_chunk cs -> Forall short_chunk cs -> List.concat (map snd cs) = total ->
+    List.concat frags = enc sha256 hmac256 hex key stsPayload stsTrailer trailer true seed [] cs a0 ->
+    run sha256 hmac256 hex key stsPayload stsTrailer trailer (init seed) (map (fun f => (f, false)) frags) [] = (total, E_EOF).
+  Proof.
+    intros H13 Hne Hlen a0 total Hfin Ha0 Htr Htrlen.
+    exact (decode_fragmented sha256 hmac256 hex key stsPayload stsTrailer trailer H13 Hne a0 total Hfin Htr Hlen Ha0 Htrlen).
+  Qed.
+
   (* a source that ends (0 bytes, EOF) is never a clean end of stream, whatever the state *)
   Theorem C12_signed_truncation_rejected : forall s, (0 <=? left s)%Z = true ->
     exists s', read sha256 hmac256 hex key stsPayload stsTrailer trailer s [] true = ([], E_UnexpectedEOF, s').
@@ -68,6 +87,7 @@ Qed.
 Print Assumptions C12_signed_accept_requires_final_chunk_partial.
 Print Assumptions C12_signed_truncation_rejected.
 Print Assumptions C12_signed_decodes_whole_stream.
+Print Assumptions C12_signed_fragmentation_independent.
 
 (* non-vacuity of C12_signed_decodes_whole_stream: its premises hold for toy hash functions and a two-chunk payload with a CRC-32
    trailer, and the encoded stream is the familiar wire format *)
@@ -96,3 +116,22 @@ Print Assumptions C12_unsigned_accept_requires_trailer_partial.
 Example C12_unsigned_example :
   urun TCrc32 100 (uinit [51;13;10;97;98;99;13;10;50;13;10;100;101;13;10;48;13;10;120;45;97;109;122;45;99;104;101;99;107;115;117;109;45;99;114;99;51;50;58;104;89;102;89;90;81;61;61;13;10;13;10]%N) [] 2 [] = (bytes_of_string "abcde", U_EOF).
 Proof. vm_compute. reflexivity. Qed.
+
+(* ... and of C12_signed_fragmentation_independent: the length premises hold there too, and a delivery that cuts the first header, the
+   data of the second chunk and the trailer evaluates (vm_compute on the model) to the payload *)
+Example C12_signed_frag_example :
+  let hx := fun _ : bytes => bytes_of_string "ab" in
+  let cs := [(bytes_of_string "3", bytes_of_string "abc"); (bytes_of_string "02", bytes_of_string "de")] in
+  let str := enc (fun x => x) (fun _ m => m) hx [] [] [] (Some TCrc32) true (bytes_of_string "seed") [] cs (bytes_of_string "0") in
+  let frags := [firstn 5 str; firstn 40 (skipn 5 str); []; firstn 60 (skipn 45 str); skipn 105 str] in
+  (forall x, (List.length (hx x) <= 64)%nat) /\ Forall short_chunk cs /\ (List.length (trailer_sum TCrc32 (bytes_of_string "abcde")) <= 64)%nat /\
+  List.concat frags = str /\
+  run (fun x => x) (fun _ m => m) hx [] [] [] (Some TCrc32) (init (bytes_of_string "seed")) (map (fun f => (f, false)) frags) [] = (bytes_of_string "abcde", E_EOF).
+Proof.
+  cbv zeta. split; [|split; [|split; [|split]]].
+  - intros x. vm_compute. repeat constructor.
+  - repeat constructor; vm_compute; repeat constructor.
+  - vm_compute. repeat constructor.
+  - vm_compute. reflexivity.
+  - vm_compute. reflexivity.
+Qed.
